@@ -343,6 +343,27 @@ def k_pool(ni, si, vi, use_out, dep, sc):
         return check([a], use_out, [None, "ast.unparse", "oneliner"][dep], sc)
 
 
+# white space of every kind around an otherwise legal name / value must be refused, not stripped
+# (str.strip, str.split, \\s and a `$` that matches before a final newline all differ here)
+WS = ["\n", "\r", "\t", " ", "\x0b", "\x0c", "\x1c", "\x85", "\u2028", "\u3000", "\r\n"]
+WS_PAIRS = [("unparser", "oneliner"), ("expr_wrapper", "list"), ("if_style", "short_circuit")]
+
+
+def ws_arg(pi, wi, pos):
+    n, v = WS_PAIRS[pi]
+    w = WS[wi]
+    return [w + n + "=" + v, n + w + "=" + v, n + "=" + w + v, n + "=" + v + w][pos]
+
+
+def k_ws(pi, wi, pos, use_out):
+    pi = rt.pick(pi, len(WS_PAIRS))
+    wi = rt.pick(wi, len(WS))
+    pos = rt.pick(pos, 4)
+    use_out = rt.pick_bool(use_out)
+    with rt.NoTracing():
+        return check([ws_arg(pi, wi, pos)], use_out, None, 0)
+
+
 def k_two(n1, v1, n2, v2, use_out):
     names = OPTION_NAMES + ["x"]
     n1 = rt.pick(n1, 4)
